@@ -8,10 +8,11 @@ Record obs_cfg := {
   oc_obs : string                                   (* the effective v2 value after conversion and loading *)
 }.
 Record obs_sampler := {
-  sm_name : string; sm_type : string; sm_params : list (string * Z); sm_fields : list string; sm_rules : list string;   (* the v1 section *)
-  sm_obs_type : string; sm_obs_params : list (string * Z); sm_obs_fields : list string; sm_obs_rules : list string    (* what the v2 loader has *)
+  sm_name : string; sm_type : string; sm_params : list (string * Z); sm_fields : list string; sm_rules : list rule;   (* the v1 section *)
+  sm_obs_type : string; sm_obs_params : list (string * Z); sm_obs_fields : list string; sm_obs_rules : list rule    (* what the v2 loader has *)
 }.
 Record case := {
+  c_crashed : bool;                                        (* a converter run panicked *)
   c_converted : bool;                                      (* both converter runs exited 0 *)
   c_accepted : bool;                                       (* the v2 loader accepted the converted files *)
   c_settings : list obs_cfg;
@@ -30,6 +31,10 @@ Definition model_value (o : obs_cfg) : string := if mapped o then loaded (to_in 
 Definition v1_section (o : obs_sampler) : section :=
   {| se_name := sm_name o; se_type := sm_type o; se_params := sm_params o; se_fields := sm_fields o; se_rules := sm_rules o |}.
 Definition zopt_eqb (a : option Z) (b : Z) : bool := match a with Some x => Z.eqb x b | None => false end.
+(* a converted rule against the loaded one: same text, same nested type, every converted parameter present *)
+Definition rule_matches (want got : rule) : bool :=
+  String.eqb (ru_text want) (ru_text got) && String.eqb (ru_sub_type want) (ru_sub_type got) &&
+  forallb (fun p => zopt_eqb (slookup (fst p) (ru_sub_params got)) (snd p)) (ru_sub_params want).
 
 Definition sampler_agrees (conv : list section) (o : obs_sampler) : bool :=
   if has_sampler (v1_section o) || String.eqb (sm_name o) "__default__" then
@@ -38,7 +43,7 @@ Definition sampler_agrees (conv : list section) (o : obs_sampler) : bool :=
     | Some s => String.eqb (se_type s) (sm_obs_type o) &&
                 forallb (fun p => zopt_eqb (slookup (fst p) (sm_obs_params o)) (snd p)) (se_params s) &&
                 list_eqb String.eqb (se_fields s) (sm_obs_fields o) &&
-                list_eqb String.eqb (se_rules s) (sm_obs_rules o)
+                list_eqb rule_matches (se_rules s) (sm_obs_rules o)
     end
   else true.
 
@@ -65,9 +70,10 @@ Definition sampler_codes (o : obs_sampler) : codes :=
   if negb (String.eqb want_type (sm_obs_type o)) then [12%N] else
   app (if forallb (fun p => zopt_eqb (slookup (fst (conv_param p)) (sm_obs_params o)) (snd (conv_param p))) (sm_params o) then [] else [13%N])
       (app (if list_eqb String.eqb (sm_fields o) (sm_obs_fields o) then [] else [14%N])
-           (if list_eqb String.eqb (sm_rules o) (sm_obs_rules o) then [] else [17%N])).
+           (if list_eqb rule_matches (map conv_rule (sm_rules o)) (sm_obs_rules o) then [] else [17%N])).
 
 Definition monitor (c : case) : codes :=
+  if c_crashed c then [19%N] else
   if negb (c_converted c && c_accepted c) then [10%N] else
   app (flat_map setting_codes (c_settings c)) (flat_map sampler_codes (c_samplers c)).
 
